@@ -27,6 +27,7 @@ type Pipe struct {
 	NClose     int
 	ShortReads bool // offer "deliver 1 byte" as an environment deviation
 	SplitRead  bool // a Read that obtained data returns in a second step (other tasks may run in between)
+	SplitWrite bool // a Write whose bytes were accepted returns in a second step
 
 	Writes []int // size of every chunk accepted (for atomicity diagnostics)
 	Reads  int
@@ -125,6 +126,10 @@ func (p *Pipe) Write(b []byte) (n int, err error) {
 			return nil, []unsafe.Pointer{obj}, nil
 		}})
 		if err != nil || n == len(b) {
+			if p.SplitWrite && err == nil && n > 0 {
+				// the bytes are on the wire but the call has not returned yet
+				vs.Yield("pipe.Write:return")
+			}
 			return
 		}
 	}
